@@ -777,7 +777,10 @@ STATES = {"fresh": "", "closed": "zz = o.close();", "null-object": "o = null;",
           # sqlite3 only: a statement is prepared / was stepped / the connection was closed or reopened under it
           "prepared": 'zz = o.prepare("select 1 union select 2");', "stepped": 'zz = o.prepare("select 1 union select 2"); zz = o.execute(); zz = o.fetch(rv);',
           "prepared-closed": 'zz = o.prepare("select 1"); zz = o.close();', "prepared-reopened": 'zz = o.prepare("select 1"); zz = o.close(); zz = o.open(path);',
-          "finalized": 'zz = o.prepare("select 1"); zz = o.finalize();'}
+          "finalized": 'zz = o.prepare("select 1"); zz = o.finalize();',
+          # file only: an open object is opened again on something that cannot be opened
+          "failed-reopen": 'zz = o.write("abc"); zz = o.open("/nonexistent/dir/file", "r");', "failed-reopen-w": 'zz = o.open("/nonexistent/dir/file", "w");',
+          "reopened-read": 'zz = o.write("abc"); zz = o.open(path, "r");'}
 SQL_L = ['"select 1"', '"create table if not exists z(a)"', '"insert into z values(?)"', '"not sql at all"', '""', "str()"]
 
 
@@ -789,6 +792,8 @@ def lattice_gen(tier):
                 if sname == "closed" and mod in ("csv", "utf8"):
                     continue
                 if sname in ("prepared", "stepped", "prepared-closed", "prepared-reopened", "finalized") and mod != "sqlite3":
+                    continue
+                if sname in ("failed-reopen", "failed-reopen-w", "reopened-read") and mod != "file":
                     continue
                 for mname, kinds in methods:
                     doms = []
